@@ -903,6 +903,7 @@ impl Property for C20 {
         let stats = core.stats.borrow().clone();
         let fake = crate::run::RunRecord {
             outcomes: vec![],
+            dumps: vec![],
             log: rec_log,
             stats: stats.clone(),
             trace: vec![],
